@@ -672,8 +672,19 @@ complete -c plan -f -a "(env _PLAN_COMPLETE=complete_fish COMP_WORDS=(commandlin
     click.echo(completion)
 
 
+def _terminate(signum: int, _frame: object) -> None:
+    """SIGTERM / SIGHUP end the run like an exception would, so that the cleanup
+    handlers remove the temporary files (the default action kills the process at once)."""
+    sys.exit(128 + signum)
+
+
 def main() -> None:
     """Entry point for the plan CLI."""
+    import signal
+
+    for name in ("SIGTERM", "SIGHUP"):
+        if hasattr(signal, name):
+            signal.signal(getattr(signal, name), _terminate)
     try:
         cli(obj={})
     except KeyboardInterrupt:
